@@ -309,3 +309,9 @@ SPECS["C15"]["explanation"] = SPECS["C15"].get("explanation", "") + "; handler l
 
 # C19: nonce reuse including handshake packets (Proofs/HandlerB_TraceHs.v, which builds on the Wire4 chain)
 SPECS["C19"]["coq_files"] = SPECS["C19"]["coq_files"] + ["Proofs/HandlerInv.v", "Proofs/HandlerA_Ledger.v", "Proofs/HandlerA_Wire2.v", "Proofs/HandlerA_Wire4.v", "Proofs/HandlerB_TraceHs.v"]
+
+# constructor parity (tools/ctor_parity.py): which copied constructors a property's harness runs depend on
+for _p in ("C01", "C02", "C03", "C04", "C12", "C13", "C15", "C19"):
+    SPECS[_p]["ctor_parity"] = SPECS[_p].get("ctor_parity", []) + ["handler"]
+for _p in ("C01", "C09", "C10", "C11", "C12", "C14", "C17", "C20"):
+    SPECS[_p]["ctor_parity"] = SPECS[_p].get("ctor_parity", []) + ["service"]
